@@ -89,4 +89,13 @@ def main():
 
 
 if __name__ == "__main__":
-    sys.exit(main())
+    try:
+        rc = main()
+    except SystemExit:
+        raise
+    except BaseException:                      # my own machinery crashed: never exit 1 (that means "violation")
+        import traceback
+        traceback.print_exc()
+        print("HARNESS-ERROR uncaught exception in the check harness (see traceback above)")
+        rc = 2
+    sys.exit(rc)
